@@ -1085,6 +1085,9 @@ class Lib:
         return Log2V(x)
 
     def bi_round(self, ctx, x, nd=None):
+        if isinstance(x, Log2V) and nd is None:
+            v = self.concretize(ctx, x.arg)  # finite instantiation over the (small) range of the argument
+            return round(math.log2(v))
         if isinstance(x, V.FloatV) and nd is None:
             return round(x.value)
         if isinstance(x, int):
